@@ -370,7 +370,9 @@ fn swap_cfg() -> ga::AspCfg {
     ga::AspCfg {
         preds: vec![("p".into(), 1), ("q".into(), 1), ("r".into(), 2), ("s".into(), 0), ("t".into(), 1), ("u".into(), 0)],
         vars: vec!["X".into(), "Y".into()],
-        syms: vec!["a".into(), "b".into()],
+        // hs, tu: symbolic constants spelled like the here-/there-copy of a propositional atom of the
+        // pool (anthem renames such a constant in every problem it occurs in)
+        syms: vec!["a".into(), "b".into(), "hs".into(), "tu".into()],
         num_lo: 0,
         num_hi: 3,
         term_depth: 1,
@@ -398,7 +400,7 @@ impl Check for Swap {
         .boxed()
     }
     fn rule(&self) -> String {
-        "two unrelated random programs (strong equivalence, tau-star and mu) or a program-vs-program external task with disjoint private names, under generated decomposition / direction / simplify / eq-break flags; oracle: the problems emitted for (A, B) in one direction and the problems emitted for (B, A) in the opposite direction are the same multiset of (set of axioms, conjectures), formula and problem names aside, and no problem of an unrequested direction appears; non-trivial = the two programs differ and at least one problem was emitted; distinct by programs + flags".into()
+        "two unrelated random programs (strong equivalence, tau-star and mu; symbolic constants include hs and tu, spelled like the here-/there-copy of a propositional atom and therefore renamed by anthem) or a program-vs-program external task with disjoint private names, under generated decomposition / direction / simplify / eq-break flags; oracle: the problems emitted for (A, B) in one direction and the problems emitted for (B, A) in the opposite direction are the same multiset of (set of axioms, conjectures), formula and problem names aside, and no problem of an unrequested direction appears; non-trivial = the two programs differ and at least one problem was emitted; distinct by programs + flags".into()
     }
     fn run(&self, case: &SwapCase) -> Outcome {
         let (ab, ba, flags, description, differ) = match case {
